@@ -204,6 +204,22 @@ namespace {
                in.w.lex.get_pointer(in.w.lex.get_qualified(in.w.quals(1 + rng.below(7)), t));
                in.w.lex.get_operator(vh::u8(s));
                in.w.lex.get_conversion(t);
+               // every other table grows as well (all keyed on the private type `t`, so no logged request can hit them)
+               auto& lx = in.w.lex;
+               auto& p = lx.get_pointer(t);
+               lx.get_reference(t); lx.get_rvalue_reference(p); lx.get_array(t, lx.false_value()); lx.get_ptr_to_member(t, p);
+               impl::Warehouse<ipr::Type> wh;
+               wh.push_back(t);
+               if (rng.coin(50)) wh.push_back(p);
+               auto& prod = lx.get_product(wh);
+               auto& sum = lx.get_sum(wh);
+               lx.get_function(prod, t); lx.get_function(prod, p, lx.true_value()); lx.get_forall(prod, t); lx.get_tor(prod, sum);
+               lx.get_as_type(lx.get_literal(t, vh::u8(s))); lx.get_symbol(id, t); lx.get_this(t); lx.get_suffix(id);
+               lx.get_ctor_name(t); lx.get_dtor_name(t); lx.get_logogram(lx.get_string(vh::u8(s)));
+               auto& lk = lx.get_linkage(vh::u8(s));
+               auto& cc = lx.get_calling_convention(vh::u8(s));
+               auto& xf = lx.get_transfer(lk, cc);
+               lx.get_function(prod, t, xf); lx.get_as_type(lx.false_value(), lx.get_transfer_from_linkage(lk));
             }
             std::cout << vj::dump(in.exec(req)) << "\n";
             // C05: an entity returned earlier reads exactly as it did when it was returned
